@@ -474,7 +474,13 @@ func (u *Upgrade) releasingUpgrade(c chan<- resultMessage, upgradedRelease *rele
 	}
 
 	originalRelease.Info.Status = release.StatusSuperseded
-	u.cfg.recordRelease(originalRelease)
+	if err := u.cfg.Releases.Update(originalRelease); err != nil {
+		// Do not mark the new revision deployed while the previous one could not be
+		// recorded as superseded: that would leave two deployed revisions.
+		originalRelease.Info.Status = release.StatusDeployed
+		u.reportToPerformUpgrade(c, upgradedRelease, results.Created, fmt.Errorf("failed to supersede previous release: %w", err))
+		return
+	}
 
 	upgradedRelease.Info.Status = release.StatusDeployed
 	if len(u.Description) > 0 {
